@@ -232,6 +232,12 @@ func (c *Check) knownFor(key string) string {
 func (c *Check) Violation(key string, summary string, files map[string]string) {
 	if id := c.knownFor(key); id != "" {
 		c.mu.Lock()
+		if f := os.Getenv("VERIF_DUMP_KNOWN"); f != "" {
+			if fh, err := os.OpenFile(f, os.O_APPEND|os.O_CREATE|os.O_WRONLY, 0o644); err == nil {
+				fmt.Fprintf(fh, "%s\t%s\n", id, key)
+				fh.Close()
+			}
+		}
 		c.knownHits[id]++
 		if _, ok := c.knownExample[id]; !ok {
 			c.knownExample[id] = key + ": " + summary
